@@ -11,6 +11,7 @@ import (
 	"testing"
 	"time"
 
+	"github.com/ipld/go-storethehash/store"
 	"github.com/ipld/go-storethehash/store/freelist"
 	"github.com/ipld/go-storethehash/store/types"
 	"github.com/ipld/go-storethehash/store/vhook"
@@ -19,6 +20,7 @@ import (
 
 const c13Rule = "(a) rapid-generated sequential histories on the multihash primary with GC cycles, flushes and reopens: the expected multiset of freed locations (the location a key had immediately before each overwrite with a different value, each successful Remove and each GC relocation, read through the public Index().Get) must equal the observed multiset = batches handed to and fully processed by GC (read from the .gc file at the named point before it is removed) + entries left in .free/.free.gc after a final flush; no observed entry may be a current location at hand-over time or at the end; after a completed cycle every delivered location is marked deleted or truncated away. " +
 	"(c) crash clause: workloads of the C03 generator under the crash recorder; for drawn crash images (preferably inside the hand-over / freelist processing) every complete entry that was in .free/.free.gc when the process died must, after recovery, a flush and two GC cycles, name a dead record. (b) concurrent histories on the freelist package alone (putters, Flush, ToGC with the consumer deleting the .gc file, delays injected at the named points inside Flush/ToGC from a generated schedule): multiset of all Puts = batches + final file. " +
+	"(a') the same oracle on bulk histories: 350-800 keys written, flushed, all overwritten or removed, flushed, then GC cycles - one hand-over of several hundred entries (more than any read buffer holds); " +
 	"non-trivial = (a) >=3 superseded locations spread over >=2 completed hand-overs, (b) >=2 hand-overs while puts were in flight; distinct = distinct canonical JSON of the case"
 
 type c13Stats struct {
@@ -37,6 +39,37 @@ func genC13(t *rapid.T) SeqCase {
 	kinds := []string{opPut, opRePut, opGet, opRemove, opFlush, opCheckAll, opPGC, opIGC, opReopen}
 	m := genMix(t, kinds, []int{10, 2, 1, 4, 3, 1, 4, 1, 1})
 	c.Ops = genOps(t, m, len(c.Keys), c.Cfg, 6, 50, false)
+	return c
+}
+
+// genC13Bulk: volume between two hand-overs. Hundreds of keys are written,
+// flushed, all superseded (overwritten or removed), flushed, and one GC cycle
+// receives the whole batch at once - more entries than fit any read buffer.
+func genC13Bulk(t *rapid.T) SeqCase {
+	var c SeqCase
+	c.Cfg = Config{Primary: store.MultihashPrimary, Bits: []uint8{8, 10, 12}[rapid.IntRange(0, 2).Draw(t, "bits")], FileCache: 512}
+	c.Cfg.PrimSize = []uint32{0, 4096, 65536, 1000}[rapid.IntRange(0, 3).Draw(t, "primsize")]
+	c.Cfg.IdxSize = []uint32{0, 4096}[rapid.IntRange(0, 1).Draw(t, "idxsize")]
+	n := rapid.IntRange(350, 800).Draw(t, "nkeys")
+	base := rapid.SliceOfN(rapid.Byte(), 4, 4).Draw(t, "base")
+	for i := 0; i < n; i++ {
+		d := append(append([]byte{}, base...), byte(i), byte(i>>8), 0x5a, 0xa5)
+		d[0] ^= byte(i * 7) // spread over buckets
+		c.Keys = append(c.Keys, KeySpec{Digest: d, Code: 0x00})
+	}
+	for i := 0; i < n; i++ {
+		c.Ops = append(c.Ops, Op{K: opPut, Key: i, VLen: 3})
+	}
+	c.Ops = append(c.Ops, Op{K: opFlush})
+	rmEvery := rapid.IntRange(2, 9).Draw(t, "rmevery")
+	for i := 0; i < n; i++ {
+		if i%rmEvery == 0 {
+			c.Ops = append(c.Ops, Op{K: opRemove, Key: i})
+		} else {
+			c.Ops = append(c.Ops, Op{K: opPut, Key: i, VLen: 6})
+		}
+	}
+	c.Ops = append(c.Ops, Op{K: opFlush}, Op{K: opPGC, A: []int{0, 50, 100}[rapid.IntRange(0, 2).Draw(t, "lowuse")]}, Op{K: opFlush}, Op{K: opPGC, A: 100}, Op{K: opCheckAll})
 	return c
 }
 
@@ -421,6 +454,25 @@ func TestC13(t *testing.T) {
 			cl = append(cl, "handover")
 		}
 		ev.Record(c, cs.Expected >= 3 && cs.Handovers >= 2 && cs.Delivered >= 1, cl...)
+		if v = judge(v); v != nil && ev.Report(v, c) {
+			rt.Fatalf("%v", v)
+		}
+	})
+	// (a') volume between two hand-overs: one batch of several hundred entries.
+	setRapidChecks(budget(24, 40))
+	rapid.Check(t, func(rt *rapid.T) {
+		if pastDeadline() {
+			ev.Skip()
+			return
+		}
+		c := genC13Bulk(rt)
+		_, cs, v := runC13(c)
+		ev.Record(struct {
+			Cfg   Config
+			NKeys int
+			NOps  int
+			Base  HexBytes
+		}{c.Cfg, len(c.Keys), len(c.Ops), c.Keys[0].Digest}, cs.Delivered >= 300, "bulk-handover", fmt.Sprintf("bulk-delivered>=%d", cs.Delivered/100*100))
 		if v = judge(v); v != nil && ev.Report(v, c) {
 			rt.Fatalf("%v", v)
 		}
